@@ -272,9 +272,9 @@ def coerce_with_vars(spec, t, node, variables):
             elif ft[0] == "nn":
                 raise GS.Reject("missing required input field")
         return out
-    if n not in GS.BUILTIN_SCALARS and spec.kind(n) == "scalar" and k != "StringValue":
+    if n not in GS.BUILTIN_SCALARS and spec.kind(n) == "scalar" and k in ("ListValue", "ObjectValue", "EnumValue"):
         # what a custom scalar makes of a non-string literal is the scalar's own business (C07)
-        raise Unspecified("non-string literal for a custom scalar")
+        raise Unspecified("list/object/enum literal for a custom scalar")
     if k in ("ListValue", "ObjectValue"):
         raise GS.Reject("container for leaf")
     return GS.coerce_ref(spec, t, value_of(node, {}))
@@ -340,6 +340,7 @@ def execute(spec, text, payload, world, operation_name=None, root_value=None, op
     res = Result()
 
     def skipped(node):
+        out = False  # every condition is coerced (an uncoercible one makes the request unspecified)
         for d in node["directives"]:
             dn = d["name"]["value"]
             if dn not in ("skip", "include"):
@@ -354,10 +355,10 @@ def execute(spec, text, payload, world, operation_name=None, root_value=None, op
             if not isinstance(cond, bool):
                 raise Unspecified("directive condition is not a boolean")
             if dn == "skip" and cond:
-                return True
+                out = True
             if dn == "include" and not cond:
-                return True
-        return False
+                out = True
+        return out
 
     def applies(cond, tn):
         return cond == tn or tn in spec.possible(cond)
